@@ -77,8 +77,12 @@ type MdnsManager struct {
 
 	providerSelection MdnsProviderSelection
 
+	// sequence number of the most recent entries snapshot taken for a report
+	reportSeq uint64
+
 	mux,
-	muxAnnounced sync.Mutex
+	muxAnnounced,
+	muxReport sync.Mutex
 }
 
 func shortenString(s string, maxLen int) string {
@@ -395,6 +399,23 @@ func (m *MdnsManager) copyMdnsEntries() map[string]*api.MdnsEntry {
 	return mdnsEntries
 }
 
+// copy the entries and number the snapshot in one step
+func (m *MdnsManager) copyMdnsEntriesForReport() (map[string]*api.MdnsEntry, uint64) {
+	m.mux.Lock()
+	defer m.mux.Unlock()
+
+	m.reportSeq++
+
+	mdnsEntries := make(map[string]*api.MdnsEntry)
+	for k, v := range m.entries {
+		newEntry := &api.MdnsEntry{}
+		util.DeepCopy[*api.MdnsEntry](v, newEntry)
+		mdnsEntries[k] = newEntry
+	}
+
+	return mdnsEntries, m.reportSeq
+}
+
 func (m *MdnsManager) mdnsEntry(ski string) (*api.MdnsEntry, bool) {
 	m.mux.Lock()
 	defer m.mux.Unlock()
@@ -565,8 +586,29 @@ func (m *MdnsManager) processMdnsEntry(elements map[string]string, name, host st
 		return
 	}
 
-	entries := m.copyMdnsEntries()
-	go m.report.ReportMdnsEntries(entries, true)
+	m.reportEntries(true)
+}
+
+// report a snapshot of the current entries on a new goroutine
+//
+// the reporting goroutines are not ordered among each other: a snapshot is only
+// delivered if no newer one has been taken meanwhile, and deliveries do not overlap
+func (m *MdnsManager) reportEntries(newEntries bool) {
+	entries, seq := m.copyMdnsEntriesForReport()
+
+	go func() {
+		m.muxReport.Lock()
+		defer m.muxReport.Unlock()
+
+		m.mux.Lock()
+		outdated := seq != m.reportSeq
+		m.mux.Unlock()
+		if outdated {
+			return
+		}
+
+		m.report.ReportMdnsEntries(entries, newEntries)
+	}()
 }
 
 func (m *MdnsManager) RequestMdnsEntries() {
@@ -574,6 +616,5 @@ func (m *MdnsManager) RequestMdnsEntries() {
 		return
 	}
 
-	entries := m.copyMdnsEntries()
-	go m.report.ReportMdnsEntries(entries, false)
+	m.reportEntries(false)
 }
